@@ -17,3 +17,4 @@ while read name id; do
     *) echo "$name $id BUILD-OR-HARNESS-ERROR $(echo "$out" | tail -3 | tr '\n' ' ' | cut -c1-200)";;
   esac
 done < sensitivity/LIST.txt
+(cd sim && CARGO_NET_OFFLINE=true cargo build --release --offline >/dev/null 2>&1)
